@@ -201,6 +201,44 @@ theorem bindValue_spec (p : GPat) (c : Partial) (vp : VPat) (v : Option ValueId)
   · obtain ⟨c', h1, h2, _, h4⟩ := bind_spec c nm (Bound.ofVal v)
     exact ⟨c', h1, h2, fun h => h4 h⟩
 
+theorem bindValue2_spec (fix2 : Bool) (p : GPat) (c : Partial) (vp : VPat) (v : Option ValueId) :
+    ∃ c', Res c (bindValue2 fix2 p [c] vp v) c' ∧ Ext c c' ∧
+      ((bindValue2 fix2 p [c] vp v).1 = true → (assignOf c').boundTo p vp v) := by
+  obtain ⟨c1, r1, e1, b1⟩ := bindValue_spec p c vp v
+  unfold bindValue2
+  dsimp only
+  split
+  · next hcond =>
+    have ht : (bindValue p [c] vp v).1 = true := by
+      simp only [Bool.and_eq_true] at hcond
+      exact hcond.1.1.2
+    split
+    · next k hk =>
+      rw [r1.st]
+      simp only [lookupVB_single]
+      split
+      · next hnone =>
+        have hnone' : c1.vb.lookup k = none := by
+          cases hl : c1.vb.lookup k with
+          | none => rfl
+          | some x => simp [hl] at hnone
+        refine ⟨{ c1 with vb := c1.vb ++ [(k, v)] },
+          ⟨rfl, fun _ => r1.okT ht, fun h => by simp at h⟩, e1.trans
+            ⟨⟨fun _ _ h => h, fun k' x h => lookup_snoc_of_some _ _ _ _ _ h, fun _ _ h => h⟩, rfl, rfl⟩,
+          fun _ => ?_⟩
+        have hb := b1 ht
+        unfold Assign.boundTo at hb ⊢
+        have hname : (p.vname vp).isSome = true := by
+          simp only [Bool.and_eq_true] at hcond
+          exact hcond.1.2
+        rcases hn : p.vname vp with _ | nm
+        · simp [hn] at hname
+        · simp only [hn] at hb ⊢
+          exact hb
+      · exact ⟨c1, r1, e1, b1⟩
+    · exact ⟨c1, r1, e1, b1⟩
+  · exact ⟨c1, r1, e1, b1⟩
+
 theorem Res.same (c : Partial) (b : Bool) (h : b = true) : Res c (b, [c]) c :=
   ⟨rfl, fun _ => rfl, fun h' => by simp [h] at h'⟩
 
@@ -380,14 +418,14 @@ theorem matchValue_spec (E : Env) (rec : NPId → NodeId → Stack → R) (hrec 
       exact ⟨c, Res.same c true rfl, Le.refl c, hnb, fun _ => ⟨hinv, .any v⟩⟩
     | var id name isVar canNone check =>
       dsimp only at hr
-      obtain ⟨c1, r1, e1, b1⟩ := bindValue_spec E.p c (.var id name isVar canNone check) v
+      obtain ⟨c1, r1, e1, b1⟩ := bindValue2_spec E.fixF2 E.p c (.var id name isVar canNone check) v
       split at hr
       · next hf =>
         subst hr
-        have hf' : (bindValue E.p [c] (.var id name isVar canNone check) v).1 = false := by simpa using hf
+        have hf' : (bindValue2 E.fixF2 E.p [c] (.var id name isVar canNone check) v).1 = false := by simpa using hf
         exact ⟨c1, r1, e1.le, hnb.ext e1, fun h => by simp [hf'] at h⟩
       · next ht =>
-        have ht' : (bindValue E.p [c] (.var id name isVar canNone check) v).1 = true := by simpa using ht
+        have ht' : (bindValue2 E.fixF2 E.p [c] (.var id name isVar canNone check) v).1 = true := by simpa using ht
         split at hr
         · subst hr
           rw [r1.st]
